@@ -183,8 +183,9 @@ def run(res, tier, sc, drv, ws):
             res.violation("compile_sources %s the ill-formed program %s" % ("accepts" if st_ == "ok" else "answers %s for" % st_, os.path.basename(fpath)),
                           {"property": "C06", "program": prog, "status": st_, "file": fpath})
     gen_rows = {"contexts": len(GEN_CONTEXTS), "faults": len(GEN_FAULTS), "declaration_faults": len(DECL_FAULTS), "programs": 0, "rejected": 0, "contexts_accepted": 0}
-    for name, prog, must in generated_rejects() + declaration_rejects():
-        st_ = compile_status(drv, sc, prog)
+    gen_rows["module_faults"] = len(MODULE_FAULTS)
+    for name, prog, must in generated_rejects() + declaration_rejects() + module_rejects():
+        st_ = compile_status(drv, sc, prog, lib=MOD_LIB if name.startswith("module") else None)
         gen_rows["programs"] += 1
         if must == "ok":
             if st_ != "ok":
@@ -195,7 +196,7 @@ def run(res, tier, sc, drv, ws):
             gen_rows["rejected"] += 1
         else:
             res.violation("compile_sources %s an ill-formed program (fault@context %s)" % ("accepts" if st_ == "ok" else "answers %s for" % st_, name),
-                          {"property": "C06", "program": prog, "status": st_, "fault_at_context": name})
+                          {"property": "C06", "program": prog, "status": st_, "fault_at_context": name, "library_module": MOD_LIB if name.startswith("module") else None})
     res.coverage["reject_corpus"] = rejects
     res.coverage["generated_reject_corpus"] = gen_rows
     res.coverage.update({
@@ -391,6 +392,50 @@ DECL_FAULTS = {
 }
 
 
+# ---- cross-module faults ("a use of a private member or class from another module"): (library module Lib, ill-formed
+# user module, well-formed twin).  The user module is the entry point L and imports from Lib.
+MOD_LIB = """class Foo(private val secret: int, val open: int) {
+  function make(): Foo = Foo.init(42, 1)
+  private function hiddenFn(): int = 1
+  function openFn(): int = 2
+  private method hiddenM(): int = this.secret
+  method openM(): int = this.open
+}
+class Holder { function get(): Foo = Foo.make()  function both(): AllOpen = AllOpen.init(1, 2) }
+class AllOpen(val x: int, val y: int) {}
+private class Hidden { function f(): int = 1 }
+class Pub { function f(): int = Hidden.f() }
+"""
+MOD_MAIN = "class Main { function main(): unit = Process.println(Str.fromInt(U.peek())) }\n"
+MODULE_FAULTS = {
+    "private_function_other_module": ("import { Foo } from Lib;\nclass U { function peek(): int = Foo.hiddenFn() }\n",
+                                      "import { Foo } from Lib;\nclass U { function peek(): int = Foo.openFn() }\n"),
+    "private_method_other_module": ("import { Foo } from Lib;\nclass U { function peek(): int = Foo.make().hiddenM() }\n",
+                                    "import { Foo } from Lib;\nclass U { function peek(): int = Foo.make().openM() }\n"),
+    "private_field_other_module": ("import { Foo } from Lib;\nclass U { function peek(): int = Foo.make().secret }\n",
+                                   "import { Foo } from Lib;\nclass U { function peek(): int = Foo.make().open }\n"),
+    "private_field_pattern_other_module": ("import { Foo } from Lib;\nclass U { function peek(): int = { let { secret, open } = Foo.make(); secret + open } }\n",
+                                           "import { Holder } from Lib;\nclass U { function peek(): int = { let { x, y } = Holder.both(); x + y } }\n"),
+    "private_class_import": ("import { Hidden } from Lib;\nclass U { function peek(): int = Hidden.f() }\n",
+                             "import { Pub } from Lib;\nclass U { function peek(): int = Pub.f() }\n"),
+    # the accessing class has the same NAME as the class that owns the private member, but lives in another module
+    "private_field_same_named_class": ("import { Holder } from Lib;\nclass Foo { function look(): int = Holder.get().secret }\nclass U { function peek(): int = Foo.look() }\n",
+                                       "import { Holder } from Lib;\nclass Foo { function look(): int = Holder.get().open }\nclass U { function peek(): int = Foo.look() }\n"),
+    "private_field_pattern_same_named_class": ("import { Holder } from Lib;\nclass Foo { function look(): int = { let { secret, open } = Holder.get(); secret + open } }\nclass U { function peek(): int = Foo.look() }\n",
+                                               "import { Holder } from Lib;\nclass Foo { function look(): int = { let { x, y } = Holder.both(); x + y } }\nclass U { function peek(): int = Foo.look() }\n"),
+    "private_method_same_named_class": ("import { Holder } from Lib;\nclass Foo { function look(): int = Holder.get().hiddenM() }\nclass U { function peek(): int = Foo.look() }\n",
+                                        "import { Holder } from Lib;\nclass Foo { function look(): int = Holder.get().openM() }\nclass U { function peek(): int = Foo.look() }\n"),
+}
+
+
+def module_rejects():
+    out = []
+    for name, (bad, good) in MODULE_FAULTS.items():
+        out.append(("module-twin:%s" % name, good + MOD_MAIN, "ok"))
+        out.append(("module:%s" % name, bad + MOD_MAIN, "rejected"))
+    return out
+
+
 def declaration_rejects():
     out = []
     for name, (bad, good) in DECL_FAULTS.items():
@@ -399,12 +444,16 @@ def declaration_rejects():
     return out
 
 
-def compile_status(drv, sc, prog):
+def compile_status(drv, sc, prog, lib=None):
     d = os.path.join(sc.root, "c06")
     os.makedirs(d, exist_ok=True)
     path = os.path.join(d, "L.sam")
     open(path, "w").write(prog)
-    p = drv.call(["compile", os.path.join(d, "out"), "L", "L=" + path], check=False)
+    mods = ["L=" + path]
+    if lib is not None:
+        open(os.path.join(d, "Lib.sam"), "w").write(lib)
+        mods.append("Lib=" + os.path.join(d, "Lib.sam"))
+    p = drv.call(["compile", os.path.join(d, "out"), "L"] + mods, check=False)
     try:
         return json.loads(p.stdout.strip().split("\n")[-1])["status"]
     except Exception:
